@@ -17,9 +17,15 @@ var zzHarnesses = map[string]func(){"H05Workers": H05Workers}
 func H05Workers() {
 	d, err := dissect.Compile("%{a} %{b}")
 	zz.Assert(err == nil, "dissect pattern rejected")
-	in := make(chan InputBatch, 2)
-	in <- InputBatch{Batch: []BString{BString("x y")}, Source: "s", BatchStart: 1}
-	in <- InputBatch{Batch: []BString{BString("p q")}, Source: "s", BatchStart: 2}
+	nb := 2
+	if !zz.Symbolic() {
+		nb = 400 // native replay: enough work that both workers really take batches (the race detector needs both accesses to happen)
+	}
+	in := make(chan InputBatch, nb)
+	for i := 0; i < nb; i += 2 {
+		in <- InputBatch{Batch: []BString{BString("x y")}, Source: "s", BatchStart: 1}
+		in <- InputBatch{Batch: []BString{BString("p q")}, Source: "s", BatchStart: 2}
+	}
 	close(in)
 	zz.Concurrent(1, zzWorkerPreempt, 0)
 	zz.RaceMonitor(true)
@@ -36,6 +42,6 @@ func H05Workers() {
 			n++
 		}
 	}
-	zz.Assert(n == 2 && e.MatchedLines() == 2, "matches lost")
+	zz.Assert(n == nb && e.MatchedLines() == uint64(nb), "matches lost")
 	zz.Reached()
 }
